@@ -35,6 +35,7 @@ class CVRPH(Harness):
     THOROUGH = ["CVRP@6"] + [f"CVRP@6~{k}" for k in range(8)] + ["CVRP@4~3"] + [f"CVRP@5~{k}" for k in range(2)]
     INVALID = "terminate"
     REWARD_VARIANTS = [{}, {"reward_fn": _sparse()}]
+    REF_REWARD_VARIANTS = True   # ref_step follows the configured reward function (C09 runs the variants too)
     DIFF_ULPS = 16   # see envs/tsp.py: FMA-fused norms in the jitted step, up to 2n of them summed by the sparse reward
 
     def __init__(self, cfg, **over):
